@@ -53,6 +53,7 @@ func SchedCfg(tape *Tape, intraOp bool) RunCfg {
 		cfg.StallMax = [...]int{0, 0, 2, 6}[tape.Choose(4)]
 	}
 	cfg.StartDelay = true
+	cfg.SelSeed = uint64(tape.Choose(1 << 16))
 	return cfg
 }
 
